@@ -150,6 +150,15 @@ def outcome(spec, clause_texts):
     return ("ok", fb.dump_houses(r.houses)), line
 
 
+def label_class(label):
+    """the construct a clause spelling stands for (counterexample classes name constructs, not spellings)"""
+    if label in ("via[of-framer]", "via[of-frame]", "via[of-actor]", "via[of-frame-of-framer]"):
+        return "via[of-relation]"          # ends in a relation keyword whose name is optional
+    if label.endswith("[bad]") or label.endswith("[dangling]"):
+        return label
+    return label.split("[")[0]
+
+
 def describe(o):
     if o[0] == "ok":
         return "builds"
@@ -226,7 +235,7 @@ def h(sym, verb, tier, kmax, first):
     keys = [kk for kk, _ in SPECS[tier][verb]["clauses"]]
     if keys.index(a[0]) > keys.index(b[0]):
         a, b = b, a          # name the pair in canonical order: the class is symmetric
-    sym.fail("C15/%s/%s+%s-order-matters" % (v, a[2], b[2]), detail)
+    sym.fail("C15/%s/%s+%s-order-matters" % (v, label_class(a[2]), label_class(b[2])), detail)
 
 
 def obligations(tier):
@@ -238,18 +247,20 @@ def obligations(tier):
         kmax = min(len(pool), 3 if quick else 4)
         if verb in ("do", "logger", "server") and quick:
             kmax = 2
+        if verb == "do" and not quick:
+            kmax = 3          # 9 clause keys x 11 via spellings: all triples (size-4 subsets would be ~150k paths)
         bounds = dict(head=spec["head"].strip(), tail=spec["tail"].strip(),
                       clauses={k: [t for t, _ in v] for k, v in pool}, clauses_per_command="2..%d" % kmax,
                       permutations="all (Lehmer code)")
         if len(pool) <= 3:
             out.append(Ob("perm/" + verb, h, dict(verb=verb, tier=tier, kmax=kmax, first=-1),
-                          budget=300 if quick else 900, per_path=10,
+                          budget=300 if quick else 900, per_path=60,
                           covers=["same-error"] if verb == "auxif" else ["same-house"], bounds=bounds,
                           max_fail_keys=40))
         else:
             for f in range(len(pool) - 1):
                 out.append(Ob("perm/%s/first=%s" % (verb, pool[f][0]), h,
                               dict(verb=verb, tier=tier, kmax=kmax, first=f),
-                              budget=300 if quick else 1200, per_path=10, covers=["same-house"], bounds=bounds,
+                              budget=300 if quick else 1200, per_path=60, covers=["same-house"], bounds=bounds,
                               max_fail_keys=40))
     return out
